@@ -1,15 +1,114 @@
+base/BitBoard.vo base/BitBoard.glob base/BitBoard.v.beautified base/BitBoard.required_vo: base/BitBoard.v base/Bits.vo
+base/BitBoard.vio: base/BitBoard.v base/Bits.vio
+base/BitBoard.vos base/BitBoard.vok base/BitBoard.required_vos: base/BitBoard.v base/Bits.vos
+base/Bits.vo base/Bits.glob base/Bits.v.beautified base/Bits.required_vo: base/Bits.v 
+base/Bits.vio: base/Bits.v 
+base/Bits.vos base/Bits.vok base/Bits.required_vos: base/Bits.v 
+base/Sweep.vo base/Sweep.glob base/Sweep.v.beautified base/Sweep.required_vo: base/Sweep.v base/Bits.vo
+base/Sweep.vio: base/Sweep.v base/Bits.vio
+base/Sweep.vos base/Sweep.vok base/Sweep.required_vos: base/Sweep.v base/Bits.vos
+base/Tree.vo base/Tree.glob base/Tree.v.beautified base/Tree.required_vo: base/Tree.v 
+base/Tree.vio: base/Tree.v 
+base/Tree.vos base/Tree.vok base/Tree.required_vos: base/Tree.v 
+base/Types.vo base/Types.glob base/Types.v.beautified base/Types.required_vo: base/Types.v 
+base/Types.vio: base/Types.v 
+base/Types.vos base/Types.vok base/Types.required_vos: base/Types.v 
 extract/Api.vo extract/Api.glob extract/Api.v.beautified extract/Api.required_vo: extract/Api.v model/Score.vo
 extract/Api.vio: extract/Api.v model/Score.vio
 extract/Api.vos extract/Api.vok extract/Api.required_vos: extract/Api.v model/Score.vos
 extract/Extract.vo extract/Extract.glob extract/Extract.v.beautified extract/Extract.required_vo: extract/Extract.v extract/Api.vo
 extract/Extract.vio: extract/Extract.v extract/Api.vio
 extract/Extract.vos extract/Extract.vok extract/Extract.required_vos: extract/Extract.v extract/Api.vos
+gen/T_between.vo gen/T_between.glob gen/T_between.v.beautified gen/T_between.required_vo: gen/T_between.v 
+gen/T_between.vio: gen/T_between.v 
+gen/T_between.vos gen/T_between.vok gen/T_between.required_vos: gen/T_between.v 
+gen/T_bishop_moves.vo gen/T_bishop_moves.glob gen/T_bishop_moves.v.beautified gen/T_bishop_moves.required_vo: gen/T_bishop_moves.v base/Tree.vo
+gen/T_bishop_moves.vio: gen/T_bishop_moves.v base/Tree.vio
+gen/T_bishop_moves.vos gen/T_bishop_moves.vok gen/T_bishop_moves.required_vos: gen/T_bishop_moves.v base/Tree.vos
+gen/T_bishop_rays.vo gen/T_bishop_rays.glob gen/T_bishop_rays.v.beautified gen/T_bishop_rays.required_vo: gen/T_bishop_rays.v 
+gen/T_bishop_rays.vio: gen/T_bishop_rays.v 
+gen/T_bishop_rays.vos gen/T_bishop_rays.vok gen/T_bishop_rays.required_vos: gen/T_bishop_rays.v 
+gen/T_book.vo gen/T_book.glob gen/T_book.v.beautified gen/T_book.required_vo: gen/T_book.v base/Tree.vo
+gen/T_book.vio: gen/T_book.v base/Tree.vio
+gen/T_book.vos gen/T_book.vok gen/T_book.required_vos: gen/T_book.v base/Tree.vos
+gen/T_king.vo gen/T_king.glob gen/T_king.v.beautified gen/T_king.required_vo: gen/T_king.v 
+gen/T_king.vio: gen/T_king.v 
+gen/T_king.vos gen/T_king.vok gen/T_king.required_vos: gen/T_king.v 
+gen/T_knight.vo gen/T_knight.glob gen/T_knight.v.beautified gen/T_knight.required_vo: gen/T_knight.v 
+gen/T_knight.vio: gen/T_knight.v 
+gen/T_knight.vos gen/T_knight.vok gen/T_knight.required_vos: gen/T_knight.v 
+gen/T_line.vo gen/T_line.glob gen/T_line.v.beautified gen/T_line.required_vo: gen/T_line.v 
+gen/T_line.vio: gen/T_line.v 
+gen/T_line.vos gen/T_line.vok gen/T_line.required_vos: gen/T_line.v 
+gen/T_pawn.vo gen/T_pawn.glob gen/T_pawn.v.beautified gen/T_pawn.required_vo: gen/T_pawn.v 
+gen/T_pawn.vio: gen/T_pawn.v 
+gen/T_pawn.vos gen/T_pawn.vok gen/T_pawn.required_vos: gen/T_pawn.v 
+gen/T_rook_moves.vo gen/T_rook_moves.glob gen/T_rook_moves.v.beautified gen/T_rook_moves.required_vo: gen/T_rook_moves.v base/Tree.vo
+gen/T_rook_moves.vio: gen/T_rook_moves.v base/Tree.vio
+gen/T_rook_moves.vos gen/T_rook_moves.vok gen/T_rook_moves.required_vos: gen/T_rook_moves.v base/Tree.vos
+gen/T_rook_rays.vo gen/T_rook_rays.glob gen/T_rook_rays.v.beautified gen/T_rook_rays.required_vo: gen/T_rook_rays.v 
+gen/T_rook_rays.vio: gen/T_rook_rays.v 
+gen/T_rook_rays.vos gen/T_rook_rays.vok gen/T_rook_rays.required_vos: gen/T_rook_rays.v 
+gen/T_zobrist.vo gen/T_zobrist.glob gen/T_zobrist.v.beautified gen/T_zobrist.required_vo: gen/T_zobrist.v 
+gen/T_zobrist.vio: gen/T_zobrist.v 
+gen/T_zobrist.vos gen/T_zobrist.vok gen/T_zobrist.required_vos: gen/T_zobrist.v 
+geom/GenFns.vo geom/GenFns.glob geom/GenFns.v.beautified geom/GenFns.required_vo: geom/GenFns.v base/Bits.vo base/Types.vo base/BitBoard.vo
+geom/GenFns.vio: geom/GenFns.v base/Bits.vio base/Types.vio base/BitBoard.vio
+geom/GenFns.vos geom/GenFns.vok geom/GenFns.required_vos: geom/GenFns.v base/Bits.vos base/Types.vos base/BitBoard.vos
+geom/Geometry.vo geom/Geometry.glob geom/Geometry.v.beautified geom/Geometry.required_vo: geom/Geometry.v base/Bits.vo base/Types.vo
+geom/Geometry.vio: geom/Geometry.v base/Bits.vio base/Types.vio
+geom/Geometry.vos geom/Geometry.vok geom/Geometry.required_vos: geom/Geometry.v base/Bits.vos base/Types.vos
+geom/Lookup.vo geom/Lookup.glob geom/Lookup.v.beautified geom/Lookup.required_vo: geom/Lookup.v base/Bits.vo base/Types.vo base/Tree.vo base/BitBoard.vo gen/T_knight.vo gen/T_king.vo gen/T_pawn.vo gen/T_rook_rays.vo gen/T_bishop_rays.vo gen/T_between.vo gen/T_line.vo gen/T_rook_moves.vo gen/T_bishop_moves.vo gen/T_zobrist.vo
+geom/Lookup.vio: geom/Lookup.v base/Bits.vio base/Types.vio base/Tree.vio base/BitBoard.vio gen/T_knight.vio gen/T_king.vio gen/T_pawn.vio gen/T_rook_rays.vio gen/T_bishop_rays.vio gen/T_between.vio gen/T_line.vio gen/T_rook_moves.vio gen/T_bishop_moves.vio gen/T_zobrist.vio
+geom/Lookup.vos geom/Lookup.vok geom/Lookup.required_vos: geom/Lookup.v base/Bits.vos base/Types.vos base/Tree.vos base/BitBoard.vos gen/T_knight.vos gen/T_king.vos gen/T_pawn.vos gen/T_rook_rays.vos gen/T_bishop_rays.vos gen/T_between.vos gen/T_line.vos gen/T_rook_moves.vos gen/T_bishop_moves.vos gen/T_zobrist.vos
+geom/Magic.vo geom/Magic.glob geom/Magic.v.beautified geom/Magic.required_vo: geom/Magic.v base/Bits.vo base/Types.vo base/Tree.vo geom/Geometry.vo geom/Lookup.vo gen/T_rook_moves.vo gen/T_bishop_moves.vo
+geom/Magic.vio: geom/Magic.v base/Bits.vio base/Types.vio base/Tree.vio geom/Geometry.vio geom/Lookup.vio gen/T_rook_moves.vio gen/T_bishop_moves.vio
+geom/Magic.vos geom/Magic.vok geom/Magic.required_vos: geom/Magic.v base/Bits.vos base/Types.vos base/Tree.vos geom/Geometry.vos geom/Lookup.vos gen/T_rook_moves.vos gen/T_bishop_moves.vos
 model/Score.vo model/Score.glob model/Score.v.beautified model/Score.required_vo: model/Score.v 
 model/Score.vio: model/Score.v 
 model/Score.vos model/Score.vok model/Score.required_vos: model/Score.v 
+model/Text.vo model/Text.glob model/Text.v.beautified model/Text.required_vo: model/Text.v 
+model/Text.vio: model/Text.v 
+model/Text.vos model/Text.vok model/Text.required_vos: model/Text.v 
+model/Tracing.vo model/Tracing.glob model/Tracing.v.beautified model/Tracing.required_vo: model/Tracing.v 
+model/Tracing.vio: model/Tracing.v 
+model/Tracing.vos model/Tracing.vok model/Tracing.required_vos: model/Tracing.v 
+proofs/BitBoardFacts.vo proofs/BitBoardFacts.glob proofs/BitBoardFacts.v.beautified proofs/BitBoardFacts.required_vo: proofs/BitBoardFacts.v base/Bits.vo base/BitBoard.vo proofs/BitsFacts.vo
+proofs/BitBoardFacts.vio: proofs/BitBoardFacts.v base/Bits.vio base/BitBoard.vio proofs/BitsFacts.vio
+proofs/BitBoardFacts.vos proofs/BitBoardFacts.vok proofs/BitBoardFacts.required_vos: proofs/BitBoardFacts.v base/Bits.vos base/BitBoard.vos proofs/BitsFacts.vos
+proofs/BitsFacts.vo proofs/BitsFacts.glob proofs/BitsFacts.v.beautified proofs/BitsFacts.required_vo: proofs/BitsFacts.v base/Bits.vo
+proofs/BitsFacts.vio: proofs/BitsFacts.v base/Bits.vio
+proofs/BitsFacts.vos proofs/BitsFacts.vok proofs/BitsFacts.required_vos: proofs/BitsFacts.v base/Bits.vos
+proofs/GeomSweeps.vo proofs/GeomSweeps.glob proofs/GeomSweeps.v.beautified proofs/GeomSweeps.required_vo: proofs/GeomSweeps.v base/Bits.vo base/Types.vo base/BitBoard.vo base/Sweep.vo geom/Geometry.vo geom/Lookup.vo geom/GenFns.vo
+proofs/GeomSweeps.vio: proofs/GeomSweeps.v base/Bits.vio base/Types.vio base/BitBoard.vio base/Sweep.vio geom/Geometry.vio geom/Lookup.vio geom/GenFns.vio
+proofs/GeomSweeps.vos proofs/GeomSweeps.vok proofs/GeomSweeps.required_vos: proofs/GeomSweeps.v base/Bits.vos base/Types.vos base/BitBoard.vos base/Sweep.vos geom/Geometry.vos geom/Lookup.vos geom/GenFns.vos
+proofs/MagicSweep.vo proofs/MagicSweep.glob proofs/MagicSweep.v.beautified proofs/MagicSweep.required_vo: proofs/MagicSweep.v base/Bits.vo base/Types.vo base/Tree.vo base/Sweep.vo geom/Geometry.vo geom/Lookup.vo geom/Magic.vo gen/T_rook_moves.vo gen/T_bishop_moves.vo
+proofs/MagicSweep.vio: proofs/MagicSweep.v base/Bits.vio base/Types.vio base/Tree.vio base/Sweep.vio geom/Geometry.vio geom/Lookup.vio geom/Magic.vio gen/T_rook_moves.vio gen/T_bishop_moves.vio
+proofs/MagicSweep.vos proofs/MagicSweep.vok proofs/MagicSweep.required_vos: proofs/MagicSweep.v base/Bits.vos base/Types.vos base/Tree.vos base/Sweep.vos geom/Geometry.vos geom/Lookup.vos geom/Magic.vos gen/T_rook_moves.vos gen/T_bishop_moves.vos
 proofs/ScoreOrder.vo proofs/ScoreOrder.glob proofs/ScoreOrder.v.beautified proofs/ScoreOrder.required_vo: proofs/ScoreOrder.v model/Score.vo
 proofs/ScoreOrder.vio: proofs/ScoreOrder.v model/Score.vio
 proofs/ScoreOrder.vos proofs/ScoreOrder.vok proofs/ScoreOrder.required_vos: proofs/ScoreOrder.v model/Score.vos
+proofs/TextFacts.vo proofs/TextFacts.glob proofs/TextFacts.v.beautified proofs/TextFacts.required_vo: proofs/TextFacts.v model/Text.vo
+proofs/TextFacts.vio: proofs/TextFacts.v model/Text.vio
+proofs/TextFacts.vos proofs/TextFacts.vok proofs/TextFacts.required_vos: proofs/TextFacts.v model/Text.vos
+proofs/TracingFacts.vo proofs/TracingFacts.glob proofs/TracingFacts.v.beautified proofs/TracingFacts.required_vo: proofs/TracingFacts.v model/Tracing.vo
+proofs/TracingFacts.vio: proofs/TracingFacts.v model/Tracing.vio
+proofs/TracingFacts.vos proofs/TracingFacts.vok proofs/TracingFacts.required_vos: proofs/TracingFacts.v model/Tracing.vos
+props/C08.vo props/C08.glob props/C08.v.beautified props/C08.required_vo: props/C08.v base/Bits.vo base/Types.vo geom/Geometry.vo geom/Lookup.vo proofs/MagicSweep.vo gen/T_rook_moves.vo gen/T_bishop_moves.vo
+props/C08.vio: props/C08.v base/Bits.vio base/Types.vio geom/Geometry.vio geom/Lookup.vio proofs/MagicSweep.vio gen/T_rook_moves.vio gen/T_bishop_moves.vio
+props/C08.vos props/C08.vok props/C08.required_vos: props/C08.v base/Bits.vos base/Types.vos geom/Geometry.vos geom/Lookup.vos proofs/MagicSweep.vos gen/T_rook_moves.vos gen/T_bishop_moves.vos
+props/C09.vo props/C09.glob props/C09.v.beautified props/C09.required_vo: props/C09.v base/Bits.vo base/Types.vo base/BitBoard.vo geom/Geometry.vo geom/Lookup.vo geom/GenFns.vo proofs/GeomSweeps.vo
+props/C09.vio: props/C09.v base/Bits.vio base/Types.vio base/BitBoard.vio geom/Geometry.vio geom/Lookup.vio geom/GenFns.vio proofs/GeomSweeps.vio
+props/C09.vos props/C09.vok props/C09.required_vos: props/C09.v base/Bits.vos base/Types.vos base/BitBoard.vos geom/Geometry.vos geom/Lookup.vos geom/GenFns.vos proofs/GeomSweeps.vos
 props/C14.vo props/C14.glob props/C14.v.beautified props/C14.required_vo: props/C14.v model/Score.vo proofs/ScoreOrder.vo
 props/C14.vio: props/C14.v model/Score.vio proofs/ScoreOrder.vio
 props/C14.vos props/C14.vok props/C14.required_vos: props/C14.v model/Score.vos proofs/ScoreOrder.vos
+props/C18.vo props/C18.glob props/C18.v.beautified props/C18.required_vo: props/C18.v base/Bits.vo base/BitBoard.vo proofs/BitsFacts.vo proofs/BitBoardFacts.vo
+props/C18.vio: props/C18.v base/Bits.vio base/BitBoard.vio proofs/BitsFacts.vio proofs/BitBoardFacts.vio
+props/C18.vos props/C18.vok props/C18.required_vos: props/C18.v base/Bits.vos base/BitBoard.vos proofs/BitsFacts.vos proofs/BitBoardFacts.vos
+props/C19.vo props/C19.glob props/C19.v.beautified props/C19.required_vo: props/C19.v model/Text.vo proofs/TextFacts.vo
+props/C19.vio: props/C19.v model/Text.vio proofs/TextFacts.vio
+props/C19.vos props/C19.vok props/C19.required_vos: props/C19.v model/Text.vos proofs/TextFacts.vos
+props/C20.vo props/C20.glob props/C20.v.beautified props/C20.required_vo: props/C20.v model/Tracing.vo proofs/TracingFacts.vo
+props/C20.vio: props/C20.v model/Tracing.vio proofs/TracingFacts.vio
+props/C20.vos props/C20.vok props/C20.required_vos: props/C20.v model/Tracing.vos proofs/TracingFacts.vos
